@@ -829,6 +829,27 @@ def rewrite_tokens(src, modpath, report):
                         bump('R19')
                         k = cl + 1
                         continue
+        # R20  X.parse::<T>()  ->  T::from_str(X)   (the definition of str::parse)
+        if t.text == '.' and toks[next_code(toks, k)].text == 'parse':
+            j20 = seq_match(toks, k, ['.', 'parse', '::', '<', None, '>', '(', ')'])
+            if j20 > 0:
+                ty = toks[next_code(toks, next_code(toks, next_code(toks, next_code(toks, k))))].text
+                try:
+                    rs = find_receiver_start(toks, k)
+                except GenError:
+                    rs = None
+                if rs is not None and re.fullmatch(r'[A-Z]\w*', ty):
+                    recv = src[toks[rs].start:toks[k].start].strip()
+                    p20 = prev_code(toks, rs)
+                    amp = ''
+                    if p20 >= 0 and toks[p20].text == '&':
+                        rs = p20
+                        amp = '&'
+                    last = prev_code(toks, j20)
+                    edits.append((toks[rs].start, toks[last].end, '%s::from_str(&%s)' % (ty, recv)))
+                    bump('R20')
+                    k = j20
+                    continue
         # R1  |_|  ->  |_e|
         j = seq_match(toks, k, ['|', '_', '|'])
         if j > 0:
